@@ -5,7 +5,7 @@ import vlib, mirrorcheck
 META = {
     "level": "model_checking",
     "text": "Every store write of Mirror.tla is a separate crash point: a step may die after any prefix of its writes, and Restart is NewKernel's initialisation from the store variables; TLC checks that restart never fails (C10_RestartOK) and the chain/position invariants of C04 across crashes. The same crash points are replayed on a real Mirror: the recording stores are truncated to the first k writes of the interrupted step, a new Mirror is started on them, and the harness checks on the real objects that it starts, that positions are not behind what was durable, that every vote and proposed header persisted for the resumed rounds is present again (and, by C05's oracle, still verifies), and it continues with the rest of the behaviour. The state machine half of a restart is replayed too (StateMachine.tla with a crash after every macro step, edge cover + simulation): predicate ResumesAtDurablePosition; at every crash point of the mirror the durable committed chain must cover the durably recorded position (DurableChainCoversPosition). The whole engine is restarted too: three real tmengine engines (the C03 cluster harness) finalize k heights, one node is stopped and started again with tmengine.New on the same stores; its state machine must enter a round (or ask for a catch-up finalization) again, its positions must not be behind, and the cluster must go on finalizing one chain.",
-    "note": "Mirror/stores only; the state machine's restart (action store, finalization store) is exercised by C02. 'Same result as the crash-free run' is checked through state equality with the spec (whose crash-free and crashed runs are both explored), not by a twin execution. Bounded as C01.",
+    "note": "World focus_chain (edge cover with a crash after every store write): a committing round holding precommits for two targets whose store collection is rewritten when the next height's header brings a late precommit; PersistedVotesReloaded is judged against every vote EVER durably written for the resumed rounds (write log), not only against what the store holds at the restart; after a divergence the crash and the restart are still carried out (free run). Mirror/stores only; the state machine's restart (action store, finalization store) is exercised by C02. 'Same result as the crash-free run' is checked through state equality with the spec (whose crash-free and crashed runs are both explored), not by a twin execution. Bounded as C01.",
     "technique": "TLA+ spec (Mirror.tla) with a crash point after every store write + TLC exhaustive bounded check + crash/restart replay on the real Mirror over truncatable recording stores",
 }
 
